@@ -29,3 +29,28 @@ package fuse
 //@   ensures [freed] !live(g, iNode)
 //@   ensures [others-kept] forall x int :: x != iNode && old(live(g, x)) ==> live(g, x)
 //@   ensures [others-new] forall x int :: x != iNode && live(g, x) ==> old(live(g, x))
+
+// ---- mutable mount (C18) --------------------------------------------------------------------------
+// a node is dropped only when the kernel holds no reference and (for files) no link remains
+//@ func shouldDelete
+//@   requires n != nil
+//@   call IsDir#1 bind isDir = $ret0
+//@   ensures [file] isDir_set && !isDir ==> (result <==> (n.refCount == 0 && n.attr.Nlink == 0))
+//@   ensures [dir] isDir_set && isDir ==> (result <==> n.refCount == 0)
+
+// rename moves exactly one entry: old (parent,name) -> new (parent,name); an existing target file
+// is removed from the directory it is in
+//@ func (*fsMutable).Rename
+//@   requires fs != nil && op != nil
+//@   call lookup#1 assert [old] $1 == op.OldParent && $2 == op.OldName
+//@   call lookup#2 assert [new] $1 == op.NewParent && $2 == op.NewName
+//@   call deleteNSEntry#1 assert [target] $1 == op.NewParent && $2 == op.NewName
+//@   call formLookupKey#1 assert [old-key] $0 == op.OldParent && $1 == op.OldName
+//@   call insertReadDirEntry#1 assert [into-new-parent] $1 == op.NewParent
+//@   call insertLookupEntry#1 assert [new-name] $1 == op.NewParent && $2 == op.NewName
+
+//@ func (*fsMutable).MkDir
+//@   requires fs != nil && op != nil
+//@   call formLookupKey#1 assert [key] $0 == op.Parent && $1 == op.Name
+//@   call preCreateCheck#1 assert [parent] $1 == op.Parent
+//@   call createNode#1 assert [dir] $2 == op.Parent && $3 == op.Name && $5 == fuseutil.DT_Directory
